@@ -333,7 +333,7 @@ OWNERS = {
     "bad_user_credentials": {"C10"},
     "par_enforced": {"C17"}, "par_contains_request_uri": {"C17"}, "par_unknown_or_used": {"C17"},
     "par_expired": {"C17", "C07"}, "par_wrong_client": {"C17"},
-    "dev_unknown": {"C16"}, "dev_used": {"C16"}, "dev_pending": {"C16"}, "dev_denied": {"C16"},
+    "dev_unknown": {"C16"}, "dev_forged": {"C16", "C06"}, "dev_used": {"C16"}, "dev_pending": {"C16"}, "dev_denied": {"C16"},
     "dev_expired": {"C16", "C07"}, "dev_wrong_client": {"C16"}, "usercode_expired": {"C16", "C07"},
     "revoke_foreign_client": {"C08"}, "revoke_unknown": {"C08"}, "revoke_already_inactive": {"C08"},
     "introspect_caller_unauthenticated": {"C09"}, "introspect_inactive": {"C09"}, "rt_introspection_disabled": {"C09"},
